@@ -396,3 +396,39 @@ SPECS["C08"]["level_text"] += ". Added: the constructors establish what the read
 SPECS["C03"]["contracts"] += ["smpl_extract.cuesheet:get_nonempty_entry", "smpl_extract.cuesheet:CueSheetTrackAdapter.parse",
                               "smpl_extract.cuesheet:CueSheetFileAdapter.parse", "smpl_extract.cuesheet:parse_cue_sheet"]
 SPECS["C03"]["bounded"].append(("contracts.cuesheet", "bounded:cue_cosmetics"))
+_UNIQ = [f"smpl_extract.structural:Image.{r}[n={n}]" for r in ("make_export_names_routine", "make_safe_names_routine") for n in (1, 2, 3, 4)]
+SPECS["C06"]["contracts"] += [k for k in _UNIQ if "export" in k]
+SPECS["C10"]["contracts"] += _UNIQ
+SPECS["C10"]["level"] = "proof"
+_UTXT = (" UNIQUENESS, proved per directory size n = 1..4 for ALL names: sanitize_names_general (reached through make_export_names_routine / "
+         "make_safe_names_routine, dictionaries and sets keyed by symbolic strings, every insertion splitting the path on 'equals an earlier key') gives the "
+         "n siblings pairwise different names and the first claimant keeps the plain name; the two string functions are replaced by abstract pure "
+         "functions (only equality matters). Directories of more than 4 entries: bounded monitor only.")
+SPECS["C06"]["level_text"] = SPECS["C06"]["level_text"].replace("NOT proved: uniqueness of the assigned names (sanitize_names_general / combine_stereo_routine work on "
+    "dictionaries keyed by symbolic strings) - that half is the bounded monitor. ", _UTXT + " ")
+SPECS["C06"]["not_covered"] = ["uniqueness for directories of more than 4 entries as a contract (needs a quantified invariant over a symbolic dictionary)",
+                               "names after combine_stereo_routine", "Roland names", "os.path.join / makedirs"]
+SPECS["C10"]["level_text"] = ("proved: " + _UTXT.strip() + " The printed (safe) names of siblings are therefore pairwise different for n <= 4. " + SPECS["C10"]["level_text"])
+SPECS["C10"]["level_note"] = "trusted: pyvc engine (symbolic-key dictionaries), z3; purity of make_safe_name / make_export_name / _add_count_to_name assumed; path resolution (parse_path) and 'other paths say not found' are bounded only"
+_PAIR = "smpl_extract.structural:Image.combine_stereo_routine"
+SPECS["C05"]["contracts"] = ["lemma:stereo_filename_decomposition", _PAIR + "[n=1]", _PAIR + "[n=2]"] + \
+    [k for k in _UNIQ if "export" in k and ("n=2" in k or "n=3" in k)]
+SPECS["C05"]["contracts_thorough"] = [_PAIR + "[n=3]"]
+SPECS["C05"]["level"] = "proof"
+SPECS["C05"]["level_text"] = ("proved for directories of n = 1, 2 (quick) and 3 (thorough) mono samples with ANY names: combine_stereo_routine merges exactly the samples whose export "
+    "names differ only in a final L / R preceded by a blank or hyphen (and whose stored names agree up to the final letter), the L sample first whatever the directory order, "
+    "names the merged sample after the common stem, hands every other sample on unchanged, loses and duplicates nothing (channels add up to n), and the names handed on stay "
+    "pairwise different. The pattern's behaviour is proved of the LIVE compiled regex (lemma:stereo_filename_decomposition: it matches exactly the names ending in "
+    "blank/hyphen + L/R and its groups decompose the name) and used by the routine proof through an abstract match contract; combine_stereo is an abstract constructor "
+    "recording which samples were merged in which order. The export names it starts from are pairwise different by the C06 uniqueness contracts. "
+    "'Every frame of both is preserved' for equal lengths is C12 (PipelineTranscoder) - bounded there. " + SPECS["C05"]["level_text"])
+SPECS["C05"]["level_note"] = ("trusted: pyvc engine (symbolic-key dictionaries / sets), z3 strings; assumed: abstract contracts of combine_stereo, of the match object (justified by the "
+                              "lemma), purity and count-injectivity of _add_count_to_name; directories of more than 3 samples and the Roland path: bounded monitors only")
+SPECS["C05"]["not_covered"] = ["directories of more than 3 samples as a contract", "combine_stereo's dataclass copy", "frame preservation of merged pairs (C12 pipeline: bounded)"]
+SPECS["C10"]["contracts"] += [f"smpl_extract.structural:Traversable.parse_path[pieces={k}]" for k in (1, 2, 3)]
+SPECS["C10"]["level_text"] = ("proved (per shape): for a realised tree root -> [leaf A, directory B -> [leaf C]] with ANY names and ANY path string that the tokeniser cuts into 1, 2 or 3 "
+    "pieces, Traversable.parse_path raises nothing but ErrorInvalidPath (which ls prints as 'was not found'), returns only the node whose names the tokens spell, never returns for a path "
+    "deeper than the tree, and does NOT raise for the joined printed names of an item - with '/' or a backslash, with or without surrounding blanks and a trailing separator; "
+    "the tokeniser (re.split with one capturing group) is an assumed contract. " + SPECS["C10"]["level_text"])
+SPECS["C10"]["not_covered"] = ["trees and paths beyond the proved shapes (bounded monitor)", "re.split semantics (assumed contract)", "the lazy realisation of `children` (construct glue)",
+                               "rendering of the resolved item (get_info / itemize)"]
